@@ -6,6 +6,8 @@ package coresim
 //                              there parked until a "release" step.
 //   {"do":"mutepoint","point":P}  hook point P is not recorded any more (it can still be gated): keeps the cost of a
 //                              point that sits in a timing-sensitive place of the core next to nothing.
+//   {"do":"refusekills","n":N}  the simulated master rejects (HTTP 400, or the status given as "ms") the next N KILL calls of the
+//                              framework; each refusal is recorded as MKillRefused{task}.  n = 0 disarms.
 //   {"do":"pendingcalls"}  records Pending{n, started}: the number of goroutines of the in-process
 //                          core that sit in callable.(*Call).Start's goroutine (a started hook call
 //                          whose result has not been collected yet and which has not been cancelled)
@@ -17,7 +19,51 @@ import (
 	"strings"
 	"sync"
 	"time"
+
+	"github.com/mesos/mesos-go/api/v1/lib/scheduler"
 )
+
+type killRefuser struct {
+	mu     sync.Mutex
+	left   int
+	status int
+}
+
+var (
+	refusersMu sync.Mutex
+	refusers   = map[*Runner]*killRefuser{}
+)
+
+// refuserOf wraps Master.OnCall once per runner (other extensions may have wrapped it before: they stay in the chain).
+func refuserOf(r *Runner) *killRefuser {
+	refusersMu.Lock()
+	defer refusersMu.Unlock()
+	if k, ok := refusers[r]; ok {
+		return k
+	}
+	k := &killRefuser{}
+	refusers[r] = k
+	inner := r.Master.OnCall
+	r.Master.OnCall = func(call *scheduler.Call) int {
+		if call.Type == scheduler.Call_KILL && call.Kill != nil {
+			k.mu.Lock()
+			refuse := k.left > 0
+			if refuse {
+				k.left--
+			}
+			k.mu.Unlock()
+			if refuse {
+				r.Emit("MKillRefused", "task", call.Kill.TaskID.Value)
+				return k.status
+			}
+		}
+		if inner != nil {
+			return inner(call)
+		}
+		return 0
+	}
+	return k
+}
 
 var (
 	mutedMu sync.Mutex
@@ -25,6 +71,16 @@ var (
 )
 
 func init() {
+	ExtraSteps["refusekills"] = func(r *Runner, st *Step, ctx context.Context) {
+		k := refuserOf(r)
+		k.mu.Lock()
+		k.left = st.N
+		k.status = 400 // Bad Request: the call is rejected, the connection of the scheduler stays usable
+		if st.Ms > 0 {
+			k.status = st.Ms
+		}
+		k.mu.Unlock()
+	}
 	ExtraSteps["mutepoint"] = func(r *Runner, st *Step, ctx context.Context) {
 		mutedMu.Lock()
 		defer mutedMu.Unlock()
